@@ -334,30 +334,32 @@ func (c *compiler) compileType(y *Type, parent Leafable, isUnion bool) error {
 
 	if y.format == val.FmtEnum || y.format == val.FmtEnumList {
 		y.enum = make(val.EnumList, len(y.enums))
+		// RFC7950 Sec 9.6.4.2 - without a value, one more than the highest value so far
 		nextId := 0
 		for i, item := range y.enums {
-			if item.val > 0 {
-				nextId = item.val
-			} else {
+			if !item.valSet && item.val <= 0 {
 				item.val = nextId
 			}
 			y.enum[i] = val.Enum{
-				Id:    nextId,
+				Id:    item.val,
 				Label: item.ident,
 			}
-			nextId++
+			if item.val >= nextId {
+				nextId = item.val + 1
+			}
 		}
 	}
 
 	if y.format == val.FmtBits || y.format == val.FmtBitsList {
+		// RFC7950 Sec 9.7.4.2 - without a position, one more than the highest position so far
 		nextPos := 0
 		for _, item := range y.bits {
-			if item.Position > 0 {
-				nextPos = item.Position
-			} else {
+			if !item.positionSet && item.Position <= 0 {
 				item.Position = nextPos
 			}
-			nextPos++
+			if item.Position >= nextPos {
+				nextPos = item.Position + 1
+			}
 		}
 	}
 
